@@ -253,6 +253,7 @@ HARNESSES = [
                [dict(kind='conv2d', n_in=2, n_w=2, bias=False), dict(kind='linear', n_in=2, n_w=2, bias=True), dict(kind='conv1d', n_in=1, n_w=2, bias=False),
                 dict(kind='linear', n_in=2, n_w=1, bias=False, gumbel=True)],
          thorough=[dict(kind='identity', n_in=n, n_w=1, bias=False, gumbel=g) for n in (1, 2, 3) for g in _B] +
-                  [dict(kind=k, n_in=ni, n_w=nw, bias=b, gumbel=g) for k in ('conv2d', 'conv1d', 'linear') for ni in (1, 2, 3) for nw in (1, 2, 3) for b in _B for g in _B],
+                  [dict(kind=k, n_in=ni, n_w=nw, bias=b, gumbel=False) for k in ('conv2d', 'conv1d', 'linear') for ni, nw in ((1, 1), (2, 2), (3, 2), (2, 3)) for b in _B] +
+                  [dict(kind=k, n_in=2, n_w=2, bias=False, gumbel=True) for k in ('conv2d', 'conv1d', 'linear')],
          timeout=90),
 ]
